@@ -42,6 +42,12 @@ type Contract struct {
 	line      int
 	hasMod    bool
 	ghostPre  []string
+	ghostSet  []ghostAssign
+}
+
+type ghostAssign struct {
+	name string
+	expr *node
 }
 
 func (c *Contract) loopInvs(key string) []clause {
@@ -153,40 +159,37 @@ func (w *World) typeID(t types.Type) int {
 	return id
 }
 
-func (w *World) typeIDByName(suffix string) (int, bool) {
+func (w *World) typeByName(suffix string) types.Type {
 	for _, b := range types.Typ {
 		if b.Name() == suffix {
-			return w.typeID(b), true
+			return b
 		}
 	}
-	// resolve by suffix match against all named types of the program
-	for _, p := range w.pkgs {
-		if p.Types == nil {
-			continue
-		}
-	}
+	ptr := strings.HasPrefix(suffix, "*")
+	name := strings.TrimPrefix(suffix, "*")
 	var found types.Type
-	for fn := range w.allFuncs {
-		_ = fn
-		break
-	}
 	for _, sp := range w.prog.AllPackages() {
 		for _, m := range sp.Members {
 			if tn, ok := m.(*ssa.Type); ok {
 				full := types.TypeString(tn.Type(), nil)
-				if full == suffix || strings.HasSuffix(full, "/"+suffix) || strings.HasSuffix(full, "."+suffix) && !strings.Contains(suffix, ".") {
+				if full == name || strings.HasSuffix(full, "/"+name) || (!strings.Contains(name, ".") && strings.HasSuffix(full, "."+name)) {
 					found = tn.Type()
-				}
-				if "*"+full == suffix || strings.HasPrefix(suffix, "*") && (strings.HasSuffix(full, "/"+suffix[1:])) {
-					found = types.NewPointer(tn.Type())
 				}
 			}
 		}
 	}
-	if found == nil {
+	if found != nil && ptr {
+		return types.NewPointer(found)
+	}
+	return found
+}
+
+func (w *World) typeIDByName(suffix string) (int, bool) {
+	t := w.typeByName(suffix)
+	if t == nil {
 		return 0, false
 	}
-	return w.typeID(found), true
+	return w.typeID(t), true
 }
 
 func (w *World) namedType(pkg, name string) types.Type {
@@ -502,7 +505,19 @@ func (w *World) loadContracts(file, pkgPath string) error {
 		case "blocks":
 			cur.blocks = rest
 		case "ghost":
-			// ghost g_name : sort
+			// ghost g_name : sort            (declaration)
+			// ghost g_name := expr           (inside a func block: executed at entry of the function)
+			if j := strings.Index(rest, ":="); j >= 0 {
+				if cur == nil {
+					return fmt.Errorf("%s:%d: ghost assignment outside func", file, lineNo)
+				}
+				n, err := parseSpec(rest[j+2:])
+				if err != nil {
+					return fmt.Errorf("%s:%d: %v", file, lineNo, err)
+				}
+				cur.ghostSet = append(cur.ghostSet, ghostAssign{name: strings.TrimSpace(rest[:j]), expr: n})
+				break
+			}
 			i := strings.Index(rest, ":")
 			w.ghostVars[strings.TrimSpace(rest[:i])] = strings.TrimSpace(rest[i+1:])
 		case "ufunc":
